@@ -319,6 +319,15 @@ static int recv_events(m_ctx_t *c, int timeout) {
                         msg_consumed = true;
                     } else {
                         M_INFO("PoisonPilling '%s'.\n", mod->name);
+                        /* Events still being batched were sent before the pill: hand them over first */
+                        if (m_queue_len(mod->batch.events) > 0) {
+                            m_queue_t *fresh = m_queue_new(mem_dtor);
+                            if (fresh) {
+                                m_queue_t *batched = mod->batch.events;
+                                mod->batch.events = fresh;
+                                call_pubsub_cb(mod, batched);
+                            }
+                        }
                         stop(mod, true);
                     }
                 }
